@@ -198,6 +198,19 @@ class Driver:
             "attributes": {"step_count": self.step_count},
         }
 
+    def todict(self) -> dict[str, Any]:
+        """
+        Return the dictionary representation under the name ASE's JSON encoder looks for
+        (used by the `RestartObserver`). The call is resolved on the instance, so the
+        restart file holds what the `to_dict` of the actual simulation class returns.
+
+        Returns
+        -------
+        dict[str, Any]
+            The dictionary returned by `to_dict`.
+        """
+        return self.to_dict()
+
     @property
     def default_logger(self) -> Logger | None:
         """
